@@ -679,7 +679,7 @@ fn boundary_script(which: u64) -> (Vec<Op>, bool) {
             v4: v4.into(), v6: v6.into(),
         }
     };
-    match which % 6 {
+    match which % 8 {
         // suspend + unsuspend the leaf, then shrink its issuer
         0 => (vec![
             Op::ChildSuspend { parent: "mid".into(), child: "leaf".into() },
@@ -730,6 +730,32 @@ fn boundary_script(which: u64) -> (Vec<Op>, bool) {
                 "2001:db8::/48"),
             Op::Quiesce,
         ], true),
+        // the same, but in between the issuer holds nothing of what the
+        // child is entitled to: the child's certificate is revoked, and has
+        // to come back after the issuer regained the resources
+        6 => (vec![
+            upd("top", "mid", "AS65003", "10.128.0.0/16", ""),
+            Op::Quiesce,
+            upd("top", "mid", "AS65000-AS65005", "10.0.0.0/16, 10.1.0.0/16",
+                "2001:db8::/48"),
+            Op::Quiesce,
+        ], true),
+        // the issuer shrinks while it is itself in the middle of a key roll
+        // (new key certified but not yet activated; later: old key not yet
+        // revoked): its children's certificates must be cut down all the
+        // same, in the issuer's next publication
+        7 => (vec![
+            Op::RollInit { ca: "mid".into() },
+            Op::Quiesce,
+            upd("top", "mid", "AS65000-AS65005", "10.0.0.0/16",
+                "2001:db8::/48"),
+            Op::SyncParent { ca: "mid".into() },
+            Op::Quiesce,
+            Op::RollActivate { ca: "mid".into() },
+            upd("top", "mid", "AS65000-AS65002", "10.0.0.0/20", ""),
+            Op::SyncParent { ca: "mid".into() },
+            Op::Quiesce,
+        ], true),
         // mapped class name on a grandchild, then shrink
         _ => (vec![
             Op::AddCaMapped { ca: "kid".into(), parent: "mid".into(),
@@ -748,8 +774,8 @@ fn run_history(
     replay_chain: Option<bool>, replay_steps: Option<Vec<Option<String>>>,
 ) -> bool {
     let mut rng = Rng::new(seed);
-    let boundary = if idx < 6 { Some(idx) }
-        else if rng.chance(1, 3) { Some(rng.below(6)) } else { None };
+    let boundary = if idx < 8 { Some(idx) }
+        else if rng.chance(1, 3) { Some(rng.below(8)) } else { None };
     let (bscript, chain) = match boundary {
         Some(b) => boundary_script(b),
         None => (vec![], rng.chance(1, 2)),
@@ -765,8 +791,9 @@ fn run_history(
     let n_setup = script.len();
     script.extend(bscript);
     let mut m = C02Monitor {
-        converge_every: if idx < 6 { 2 } else { 4 },
-        hold_until: if boundary == Some(5) { script.len() } else { 0 },
+        converge_every: if idx < 8 { 2 } else { 4 },
+        hold_until: if matches!(boundary, Some(5) | Some(6)) { script.len() }
+            else { 0 },
         ..Default::default()
     };
     r.distinct("configs", format!("chain={chain}/mem={memory}/b={boundary:?}"));
@@ -795,8 +822,8 @@ fn main() {
     }
     let mut idx = 0u64;
     loop {
-        let hist_idx = if idx == 0 && args.shard < 6 { args.shard }
-            else { 6 + idx };
+        let hist_idx = if idx == 0 && args.shard < 8 { args.shard }
+            else { 8 + idx };
         let seed = args.shard_seed().wrapping_mul(7919).wrapping_add(hist_idx);
         run_history(&mut r, &args, hist_idx, seed, None, None, None);
         idx += 1;
